@@ -178,8 +178,12 @@ func runHash(sc *Scenario, w *World) (uint64, uint64) {
 }
 
 // RunHistoryShard is the main loop of a history-engine shard.
+// liveReport is the report of the shard loop currently running (for the hang watchdog).
+var liveReport *ShardReport
+
 func RunHistoryShard(t *testing.T, env *ShardEnv) *ShardReport {
 	rep := newShardReport(env.Prop, "history", env.Shard, env.Tier, env.Seed)
+	liveReport = rep
 	start := time.Now()
 	shardSeed := mixSeed(env.Seed, strSeed(env.Prop), uint64(env.Shard))
 	nt := map[uint64]bool{}
